@@ -271,6 +271,19 @@ def apply_op(root, enc, at, op):
             ks[i], ks[j] = ks[j], ks[i]
         elif len(node["kids"]) > 1:
             node["kids"][0], node["kids"][1] = node["kids"][1], node["kids"][0]
+    elif op == "nest-under-previous":
+        if parent:
+            ks = parent["kids"]
+            i = ks.index(node)
+            if i > 0 and ks[i - 1]["t"] == "Structure":
+                ks.remove(node)
+                wrap = {"n": "Comment", "t": "Structure", "v": "", "idx": -2, "kids": [
+                    {"n": "Comment", "t": "Structure", "v": "", "idx": -3, "kids": [{"n": "Comment", "t": "TextString", "v": "x", "kids": [], "idx": -4}]}, node]}
+                if enc == "xml":
+                    wrap["xname"], wrap["xtag"] = "TTLV", "0x540001"
+                else:
+                    wrap["jtag"] = json.dumps("0x540001")
+                ks[i - 1]["kids"].append(wrap)
     elif op == "leaf-with-children":
         node["extra_kids"] = [{"n": "Comment", "t": "TextString", "v": "x", "kids": [], "idx": -1}]
         if enc == "json":
@@ -407,7 +420,7 @@ def base_text(docs, name, enc):
     return xml_node(root) if enc == "xml" else json_node(root)
 
 
-def replay(ctx, want_keeps=None, deep_ok=True):
+def replay(ctx, want_keeps=None, deep_ok=True, also_ops=None):
     """runs TLC on TextShapes.tla, renders the cases, replays them; returns (cases, results, bases) where bases[(doc,enc)] is the
     result of the unmutated document"""
     deep = "_deep" if (not ctx.quick and deep_ok) else ""       # thorough: every case also with a second mutation at the last node
@@ -418,7 +431,7 @@ def replay(ctx, want_keeps=None, deep_ok=True):
         raise vlib.Inconclusive("too few shape cases: %d" % len(cases))
     docs = spec_docs(r)
     if want_keeps:
-        cases = [c for c in cases if c["keeps"] == want_keeps]
+        cases = [c for c in cases if c["keeps"] == want_keeps or (also_ops and c["op"] in also_ops)]
     shapes = []
     order = []
     for dn in sorted(docs):
@@ -505,6 +518,47 @@ def judge_c04(ctx, rows, bases):
                           "%s document with %s at %s (%s) is a conformant notation of the same message but %s" % (
                               c["enc"].upper(), c["op"], c["node"]["n"], c["doc"], "decodes to another binary" if x["first"]["Outcome"] == "value" else "is not decoded: " + x["first"]["Detail"][:200]),
                           {"case": c, "doc": s["doc"][:20000], "result": x["first"], "base": b})
+    return n
+
+
+LENIENT_OPS = {"leaf-with-children", "text-content", "cdata-inside", "extra-attribute", "extra-key", "ns-prefix", "ns-default"}
+
+
+def judge_c04_lenient(ctx, rows, bases):
+    """decoration a decoder may ignore or refuse (child elements / text inside a value element, unknown attributes or members, a
+    namespace): the document is rejected, or it is the message without the decoration - never another message"""
+    n = 0
+    for c, s, x in rows:
+        if c["op"] not in LENIENT_OPS or c.get("op2", "none") != "none":
+            continue
+        n += 1
+        b = bases[(c["doc"], c["enc"])]["first"]["Bin"]
+        o = x["first"]
+        if o["Outcome"] == "value" and o.get("Bin") != b:
+            ctx.violation("shape:%s:%s:another-message" % (c["enc"], c["op"]), "%s document with %s at %s (%s) is accepted as a message that differs from the one without the decoration" % (
+                c["enc"].upper(), c["op"], c["node"]["n"], c["doc"]), {"case": c, "doc": s["doc"][:20000], "result": o, "base": b})
+    return n
+
+
+def judge_c04_cross(ctx, rows):
+    """the same restructured tree written in XML and in JSON is the same message: both decoders accept it with the same binary, or
+    both reject it (tree mutations only: they mean the same in both encodings)"""
+    by = {}
+    for c, s, x in rows:
+        if c["op"] in ("drop-node", "dup-node", "swap-with-next", "nest-under-previous") and c.get("op2", "none") == "none":
+            by.setdefault((c["doc"], c["at"], c["op"]), {})[c["enc"]] = (c, s, x)
+    n = 0
+    for key, d in by.items():
+        if "xml" not in d or "json" not in d:
+            continue
+        n += 1
+        (cx, sx, xx), (cj, sj, xj) = d["xml"], d["json"]
+        ox, oj = xx["first"], xj["first"]
+        if ox["Outcome"] in ("value", "error") and oj["Outcome"] in ("value", "error") and (ox["Outcome"] != oj["Outcome"] or (ox["Outcome"] == "value" and ox.get("Bin") != oj.get("Bin"))):
+            ctx.violation("shape:cross:%s:xml-%s-json-%s" % (cx["op"], ox["Outcome"], oj["Outcome"]),
+                          "%s at %s (%s): the same tree is %s in XML and %s in JSON%s" % (cx["op"], cx["node"]["n"], cx["doc"], ox["Outcome"], oj["Outcome"],
+                                                                                       " with different content" if ox["Outcome"] == oj["Outcome"] else ""),
+                          {"case": cx, "xml": sx["doc"][:6000], "json": sj["doc"][:6000], "xml_result": ox, "json_result": oj})
     return n
 
 
